@@ -530,14 +530,17 @@ def job(arg):
 
 def run(tier, seed, jobs):
     EXTENDED_ALWAYS[0] = tier == "thorough"
-    depth = 3 if tier == "quick" else 5
+    depth = 3 if tier == "quick" else 4
     firsts = [op for op in OPS if op[0] in ("reg", "badreg")]
     work = [(op, depth) for op in firsts]
+    # deeper over the operations that change what the directory holds in the most different ways (split by the second operation to
+    # use all cores): one level from the two most productive starts in the quick tier, two levels from every valid registration in
+    # the thorough one
+    core_ops = [op for op in OPS if op[0] in ("t", "del", "put", "updfrom") or op in CORE4]
     if tier == "quick":
-        # one level deeper from the two most productive starts (split by the second operation to use all cores), over the operations
-        # that change what the directory holds in the most different ways
-        core_ops = [op for op in OPS if op[0] in ("t", "del", "put", "updfrom") or op in CORE4]
         work += [((OPS[0], op2), 4, core_ops) for op2 in core_ops] + [((OPS[2], op2), 4, core_ops) for op2 in core_ops]
+    else:
+        work += [((f, op2), 6, core_ops) for f in firsts if f[0] == "reg" and f[1] in ("e1", "e2") for op2 in core_ops][:400]
     return core.prun(job, work, jobs)
 
 
